@@ -11,7 +11,7 @@ import (
 	"time"
 )
 
-// Behaviours (TCP side): reply | reply-keep-open | partial | close | silent | refuse
+// Behaviours (TCP side): reply | reply-keep-open | partial | oversized | close | silent | refuse
 // The UDP side is silent unless UDPReply is set.
 type KDC struct {
 	Port      int
@@ -114,6 +114,9 @@ func (k *KDC) serveTCP() {
 					io.Copy(io.Discard, c) // until the proxy closes
 					c.Close()
 				}
+			case "oversized": // announces a reply far beyond any Kerberos message and keeps the connection open
+				c.Write([]byte{0x00, 0x02, 0x00, 0x01, 0x6b, 0x81})
+				io.Copy(io.Discard, c)
 			case "partial":
 				if len(k.Reply) > 1 {
 					c.Write(k.Reply[:len(k.Reply)/2])
